@@ -8,6 +8,7 @@ import (
 	"math/rand"
 	"reflect"
 	"runtime"
+	"strings"
 	"sync"
 
 	"github.com/tidwall/geojson"
@@ -16,9 +17,9 @@ import (
 
 // C16: objects are immutable.
 //
-//   c16digest <objects.lines> <outdir> <seed>            deterministic sweep: deep digest of all reachable memory
-//                                                         before and after every call
-//   c16stress <objects.lines> <outdir> <seed> <G> <K>    many goroutines over a shared pool (run from the -race build)
+//	c16digest <objects.lines> <outdir> <seed>            deterministic sweep: deep digest of all reachable memory
+//	                                                      before and after every call
+//	c16stress <objects.lines> <outdir> <seed> <G> <K>    many goroutines over a shared pool (run from the -race build)
 func init() {
 	commands["c16digest"] = c16digest
 	commands["c16stress"] = c16stress
@@ -138,6 +139,12 @@ func buildPool(path string) ([]poolObj, error) {
 		}
 		pool = append(pool, poolObj{t, "constructors/default-index", t.buildC05(nil)})
 		pool = append(pool, poolObj{t, "constructors/rtree-1", t.buildC05(&indexConfigs[1])})
+		if len(pool)%5 == 0 { // Features with long member texts (caches are often size-gated)
+			big := `{"id":"` + strings.Repeat("x", 300) + `","properties":{"name":"` + strings.Repeat("n", 300) + `","k":[1,2,3]},"bbox":[0,0,1,1]}`
+			pool = append(pool, poolObj{Tree{Kind: "Feature", Kids: []Tree{t}}, "NewFeature/long-members", geojson.NewFeature(t.buildC05(nil), big)})
+			noprops := `{"id":"` + strings.Repeat("y", 400) + `"}`
+			pool = append(pool, poolObj{Tree{Kind: "Feature", Kids: []Tree{t}}, "NewFeature/long-members-no-properties", geojson.NewFeature(t.buildC05(nil), noprops)})
+		}
 		if t.Kind != "Circle" && !(t.Kind == "Feature" && t.Kids[0].Kind == "Circle") {
 			for pi := range parseOptSets[:2] {
 				if o, err := geojson.Parse(t.Render(Identity), &parseOptSets[pi]); err == nil {
